@@ -365,9 +365,41 @@ def histories(chk, n):
                                                       "state": {"seen": len(hr._seen), "quoting": hr._quoting}},
                      text, "'(a 1)", "a model printed after a failed print of a model keeps its leading quote")
 
+    class Catcher:
+        """an object whose registered printer shows its child, or a mark when the child cannot be printed"""
+
+        def __init__(self, child):
+            self.child = child
+
+    def catcher_printer(c):
+        try:
+            return "(Catcher %s)" % hy.repr(c.child)
+        except ValueError:
+            return "(Catcher <unprintable>)"
+
+    hy.repr_register(Catcher, catcher_printer)
     try:
         for i in range(n):
             root, path, remove = gen_history(chk.rng)
+            if i % 3 == 2:
+                # the failure is caught half-way up by a printer that carries on: nothing propagates to the top
+                desc = "a registered printer catches the ValueError of an element's __repr__ inside %s" % " > ".join(
+                    type(c).__name__ for c in reversed(path))
+                try:
+                    text = hy.repr([Catcher(root), hy.models.Symbol("after")])
+                    chk.count("history:caught")
+                    if text != "[(Catcher <unprintable>) 'after]":
+                        chk.fail("roundtrip-after-failed-print", {"history": desc, "later_value": "the rest of the same call",
+                                                                  "state": {"seen": len(hr._seen), "quoting": hr._quoting}},
+                                 text, "[(Catcher <unprintable>) 'after]", "hy.repr([Catcher(x), 'after]) where printing x fails inside")
+                except Exception as e:
+                    chk.count("history:other-exception:" + type(e).__name__)
+                remove()
+                for j, c in enumerate(path):
+                    if not judge("caught-below", j, c, desc):
+                        break
+                judge_model(i, desc)
+                continue
             desc = "hy.repr raises ValueError from an element's __repr__ inside %s" % " > ".join(
                 type(c).__name__ for c in reversed(path))
             as_model = chk.rng.random() < 0.3
@@ -404,6 +436,7 @@ def histories(chk, n):
         leaked = (len(hr._seen), hr._quoting)
         hr._seen.clear()
         hr._quoting = False
+        hr._registry.pop(Catcher, None)
     chk.obligation("hy-repr's state is idle after the histories with failing prints", leaked == (0, False),
                    "_seen holds %d ids, _quoting = %r" % leaked)
 
